@@ -10,10 +10,10 @@ META = dict(
               "compared with the paint operations of the recorded layers incl. reference stroke outlines (vm_compute)",
     level_text="Theorems (Coq, closed): for every sequence of styled draws the PDF writer's output, interpreted from the PDF initial graphics "
                "state, yields exactly the requested paint operations in order (cache transparency + paint order) — refuted for the writer at "
-               "the pinned commit (stale alpha, S*), full after the fixes; PS colour cache transparent after the fix (refuted before); "
+               "the pinned commit (stale alpha, S*), full after the fixes; the same for the PostScript writer with all five caches (colour, width, cap, join + miter limit, dashes; gsave/grestore around the fill) after the fix, colour cache refuted before; "
                "similarities scale all distances by k, the SVG flip is an isometry, fallback condition, unit conversions.",
     level_note="Partial: the SVG back-end has no writer model (it keeps no state): its <path> elements are interpreted (exec_svg, SVG 1.1 defaults) and judged against the layers, property flags only; gradients, patterns, images, "
-               "text and opacity groups are not interpreted; PS caches other than the colour are tied by the differential run only; paths "
+               "text and opacity groups are not interpreted; paths "
                "with M/L/C/Z only (arcs and quadratics go through the library's own conversions). PostScript has no alpha (documented) and "
                "the PS back-end writes millimetres as PostScript units (known finding).",
     harness=["c12"],
